@@ -119,6 +119,12 @@ CHECKS = {
    design_ref="DESIGN.md section 3, C18",
    note="One case at a time per host process so that goroutines are attributable; only graceful exits are judged.",
    technique="runtime monitoring: file-system listing + goroutine-dump leak monitor after graceful shutdown"),
+ "C20": dict(
+   category="exploration",
+   text="Sanitizer + runtime monitor: concurrent rounds (4/16/64 goroutines) over in-process MuxBroker / GRPCBroker / multiplexed pairs and over one real Client with a race-built plugin process serving several dispensed implementations and brokered connections; a third of the rounds race Close / server Stop / concurrent Kill with in-flight operations; seeded jitter at every hook point. The Go race detector runs in both processes (reports attributed to go-plugin by accessing frame and de-duplicated by function pair), host deaths, recovered panics and plugin-side panic lines are violations, and the multiset of NextId results must be duplicate-free.",
+   design_ref="DESIGN.md section 3, C20",
+   note="A clean race-detector run covers only the accesses and schedules this workload produced (bounded per-location history).",
+   technique="sanitizer: Go race detector on host and plugin under a concurrent stress workload, plus panic and NextId-uniqueness monitors"),
 }
 PENDING_REASON = "check not built yet in this revision; it is planned as a runtime monitor (see DESIGN.md section 3) and will move to 'checks' when it exists"
 
